@@ -19,11 +19,29 @@ class VLoop(asyncio.SelectorEventLoop):
         self._clock_resolution = 1e-9
     def time(self): return self._vtime
 class FakeTransport(asyncio.Transport):
-    def __init__(self, proto, hwm=None):
+    def __init__(self, proto, hwm=None, sockbuf=None):
         super().__init__(); self.proto = proto; self.written = []; self.closing=False; self.reading=True; self.log=[]
         self.buffered = 0; self.hwm = hwm; self.paused=False; self.lost=False
+        # sockbuf: model of the kernel's send buffer - only that many bytes of a write go out at once, the rest is
+        # queued in user space and goes out [sockbuf] bytes per 10 ms; a graceful close() flushes the queue before
+        # the connection is lost, abort() discards it (as asyncio's transports do).  None: everything goes out at once.
+        self.sockbuf = sockbuf; self.pending_out = bytearray(); self.discarded = 0
+    def _drain_out(self):
+        if self.lost or not self.pending_out: return
+        self.written.append(bytes(self.pending_out[:self.sockbuf])); del self.pending_out[:self.sockbuf]
+        if self.pending_out: asyncio.get_event_loop().call_later(0.01, self._drain_out)
+        elif self.closing: asyncio.get_event_loop().call_soon(self._lost)
     def write(self, data):
-        self.written.append(data); self.log.append(('write', data))
+        self.log.append(('write', data))
+        if self.sockbuf is not None:
+            if self.pending_out or len(data) > self.sockbuf:
+                first = b'' if self.pending_out else bytes(data[:self.sockbuf])
+                if first: self.written.append(first)
+                was_empty = not self.pending_out
+                self.pending_out += data[len(first):]
+                if was_empty: asyncio.get_event_loop().call_later(0.01, self._drain_out)
+                return
+        self.written.append(data)
         if self.hwm is not None:
             self.buffered += len(data)
             if self.buffered > self.hwm and not self.paused:
@@ -34,9 +52,11 @@ class FakeTransport(asyncio.Transport):
     def is_closing(self): return self.closing
     def close(self):
         if not self.closing:
-            self.closing=True; self.log.append(('close',)); asyncio.get_event_loop().call_soon(self._lost)
+            self.closing=True; self.log.append(('close',))
+            if not self.pending_out: asyncio.get_event_loop().call_soon(self._lost)      # else: once the queue is flushed
     def abort(self):
         self.log.append(('abort',))
+        self.discarded += len(self.pending_out); self.pending_out.clear()
         if not self.lost:
             self.closing=True; asyncio.get_event_loop().call_soon(self._lost)
     def _lost(self):
